@@ -2,11 +2,11 @@ package interp
 
 import (
 	"fmt"
-	"os"
-	"sync/atomic"
 	"go/token"
 	"go/types"
+	"os"
 	"strings"
+	"sync/atomic"
 
 	"golang.org/x/tools/go/ssa"
 
@@ -16,17 +16,17 @@ import (
 
 // Config is shared (read-only) between workers.
 type Config struct {
-	Prog        *ssa.Program
-	RepoPkgs    []*ssa.Package // re-initialised on every path, in dependency order
-	StdInitPkgs []*ssa.Package // initialised once per worker, in dependency order
-	Redirects   map[string]*ssa.Function
-	StepBudget  int64
-	DepthBudget int
-	MapOrder    string
-	SolverKind  string
-	TimeoutMs   int
-	Embeds      map[string]string // global var full name -> content (go:embed)
-	Trace       bool
+	Prog         *ssa.Program
+	RepoPkgs     []*ssa.Package // re-initialised on every path, in dependency order
+	StdInitPkgs  []*ssa.Package // initialised once per worker, in dependency order
+	Redirects    map[string]*ssa.Function
+	StepBudget   int64
+	DepthBudget  int
+	MapOrder     string
+	SolverKind   string
+	TimeoutMs    int
+	Embeds       map[string]string // global var full name -> content (go:embed)
+	Trace        bool
 	VfsErrType   types.Type
 	VfsCwd       string            // initial working directory of the virtual file system (default /vroot)
 	VfsFiles     map[string]string // absolute path -> content, present in the virtual file system from the start
@@ -49,42 +49,42 @@ type fnInfo struct {
 }
 
 type Interp struct {
-	cfg      *Config
-	prog     *ssa.Program
-	st       *term.Store
-	solver   *smt.Solver
-	solver2  *smt.Solver
-	globals  map[*ssa.Global]*Value
-	fninfo   map[*ssa.Function]*fnInfo
-	plain    map[*ssa.Function]*fnInfo
-	consts   map[*ssa.Const]Value
-	path     *Path
-	MapOrder string
-	cur      *frame
-	depth    int
-	stdInit  bool
-	initMode bool
-	vfs      *vfsState
-	sibs     []WorkItem
-	qcache    map[string]qres
-	cacheHits int64
+	cfg                     *Config
+	prog                    *ssa.Program
+	st                      *term.Store
+	solver                  *smt.Solver
+	solver2                 *smt.Solver
+	globals                 map[*ssa.Global]*Value
+	fninfo                  map[*ssa.Function]*fnInfo
+	plain                   map[*ssa.Function]*fnInfo
+	consts                  map[*ssa.Const]Value
+	path                    *Path
+	MapOrder                string
+	cur                     *frame
+	depth                   int
+	stdInit                 bool
+	initMode                bool
+	vfs                     *vfsState
+	sibs                    []WorkItem
+	qcache                  map[string]qres
+	cacheHits               int64
 	obligations, discharged int64
-	frozen       map[*Value]bool
-	frozenMaps   map[*Map]bool
-	sharedWrites []string
-	sharedReads   map[*Value]string
-	atomicWritten map[*Value]string
-	inAtomic      bool
-	phase         int
-	phases        map[int]*phaseLog
-	syncUses     []string
-	pools        map[*Value][]Value
-	testFailed   bool
-	openFiles    map[*Value][]Value
-	syncMaps     map[*Value]*Map
-	pendingGo    []pendingGoroutine
-	testMsg      string
-	nondetUses   []string
+	frozen                  map[*Value]bool
+	frozenMaps              map[*Map]bool
+	sharedWrites            []string
+	sharedReads             map[*Value]string
+	atomicWritten           map[*Value]string
+	inAtomic                bool
+	phase                   int
+	phases                  map[int]*phaseLog
+	syncUses                []string
+	pools                   map[*Value][]Value
+	testFailed              bool
+	openFiles               map[*Value][]Value
+	syncMaps                map[*Value]*Map
+	pendingGo               []pendingGoroutine
+	testMsg                 string
+	nondetUses              []string
 	// statistics
 	FnInstr map[string]int64
 }
@@ -1436,7 +1436,6 @@ func zeroLike(v Value) Value {
 	return v
 }
 
-
 var goSizes = types.StdSizes{WordSize: 8, MaxAlign: 8}
 
 // goSizeClasses: malloc size classes of the gc runtime (runtime/sizeclasses.go).
@@ -1479,7 +1478,6 @@ func goGrowCap(oldCap, newLen int, elemSize int64) int {
 	mem := goRoundUpSize(int64(newcap) * elemSize)
 	return int(mem / elemSize)
 }
-
 
 type pendingGoroutine struct {
 	fn   Value
